@@ -69,7 +69,7 @@ cholmod_tril(int dim, cholmod_common *c)
 static double
 bspline(const double *knots, double x, int i, int n)
 {
-	double result;
+	double result, d1, d2;
 	
 	if (n == 0) {
 		/*
@@ -83,10 +83,17 @@ bspline(const double *knots, double x, int i, int n)
 			return 0.0;
 	}
 	
-	result = (x - knots[i])*bspline(knots, x, i, n-1) /
-	(knots[i+n] - knots[i]);
-	result += (knots[i+n+1] - x)*bspline(knots, x, i+1, n-1) /
-	(knots[i+n+1] - knots[i+1]);
+	/*
+	 * A term whose knot span vanishes (repeated knots) is zero by
+	 * convention; evaluating it would give 0/0 = NaN for every x.
+	 */
+	d1 = knots[i+n] - knots[i];
+	d2 = knots[i+n+1] - knots[i+1];
+	result = 0.0;
+	if (d1 != 0)
+		result = (x - knots[i])*bspline(knots, x, i, n-1) / d1;
+	if (d2 != 0)
+		result += (knots[i+n+1] - x)*bspline(knots, x, i+1, n-1) / d2;
 	
 	return result;
 }
